@@ -48,6 +48,9 @@ BedRecs ==
     thickStart |-> s, thickEnd |-> 7, rgb |-> c, blockSizes |-> b, blockStarts |-> b] :
      s \in {0, -3, 12}, n \in {<<110>>, <<43>>}, sc \in {0, -1}, st \in {43, 45, 46},
      c \in {<<>>, <<0, 0, 0>>, <<255, 1, 20>>}, b \in {<<1>>, <<1, 20>>}}
+  \* both thick fields genuinely zero although the feature does not start at zero
+  \cup {[chrom |-> <<99>>, start |-> s, end |-> 7, name |-> <<110>>, score |-> 0, strand |-> 43,
+          thickStart |-> 0, thickEnd |-> 0, rgb |-> <<>>, blockSizes |-> <<1>>, blockStarts |-> <<1>>] : s \in {-3, 3}}
 
 GffItems ==
   {[kind |-> "feature", seqname |-> <<115>>, source |-> <<46>>, feature |-> <<102>>, start |-> s, end |-> s + 5,
